@@ -41,9 +41,27 @@ Agree ==
          /\ Take(X!Visible(v), Len(Below(r.ds, r.arity))) = Below(r.ds, r.arity)
     [] Kind(r) = "timeout" -> VmSmall.err = "Limit"              \* never falls through
 
+\* the control-flow skeleton of the code the design compiles (absolute targets): compared with the real compiler's
+\* listing (hook verif_code) as DRIFT - it binds Xeh.tla's back-patching, which C02/C10/C11/C14/C15 build on
+Skeleton ==
+  LET c == X!Submit(X!Boot, X!Label(toks, 1), "compile") IN
+  IF ~X!Ok(c) THEN <<"uncompiled">>
+  ELSE [k \in 1..Len(c.code) |->
+         LET o == c.code[k]  ip == k - 1 IN
+         CASE o.op = "jump"   -> "jump " \o ToString(ip + o.a)
+           [] o.op = "jifn"   -> "jumpifnot " \o ToString(ip + o.a)
+           [] o.op = "jif"    -> "jumpif " \o ToString(ip + o.a)
+           [] o.op = "caseof" -> "caseof " \o ToString(ip + o.a)
+           [] o.op = "do"     -> "do " \o ToString(ip + o.a)
+           [] o.op = "loop"   -> "loop " \o ToString(ip + o.a)
+           [] o.op = "break"  -> "break " \o ToString(ip + o.a)
+           [] o.op = "call"   -> "call " \o ToString(o.a)
+           [] o.op = "ret"    -> "ret"
+           [] OTHER -> "other"]
+
 Replay ==
   LET r == Ref
-      base == [src |-> SrcText, kind |-> Kind(r), agree |-> Agree] IN
+      base == [src |-> SrcText, kind |-> Kind(r), agree |-> Agree, code |-> Skeleton] IN
   CASE Kind(r) = "skip"    -> base
     [] Kind(r) = "done"    -> base @@ [ds |-> r.ds, out |-> r.out, vars |-> VarSeq(r), limit |-> 200000]
     [] Kind(r) = "fail"    -> base @@ [cls |-> r.err, below |-> Below(r.ds, r.arity), slack |-> Len(r.ds) - Len(Below(r.ds, r.arity)),
